@@ -55,7 +55,7 @@ def signature(recs, k, mon):
 
 
 def run_topic_check(ctx, prop, *, kinds, want, given, maxseq, u1_quick, u1_thorough, sim_quick, sim_thorough,
-                    extra_props=(), nusers=3, sess_per_user=1, maxsubs=3, extra_behaviours=None, assumptions=(), rule="", delranges=None, maxdel=2, faults=None, p2p=False, root=False, special=False, gates=None, chan=False):
+                    extra_props=(), nusers=3, sess_per_user=1, maxsubs=3, extra_behaviours=None, assumptions=(), rule="", delranges=None, maxdel=2, faults=None, p2p=False, root=False, special=False, gates=None, chan=False, e2pub=None):
     thorough = ctx.tier == "thorough"
     users, sess, topics = world.population(nusers, sess_per_user, ("g1", "p12") if p2p else ("g1",))
     levels, roots = {}, []
@@ -219,6 +219,27 @@ def run_topic_check(ctx, prop, *, kinds, want, given, maxseq, u1_quick, u1_thoro
             ctx.cov["gate_variants"] = {"variants": len(gv), "fired": fired}
             recs = recs + grecs
             bj = bj + gbj
+    if e2pub:
+        # ---- E2: concurrent publishers (several users, two sessions each, group + p2p) with a churning session; no quiescence
+        # between requests; the TLC monitor states what any such history must satisfy
+        mine = {"C01": ("NoNumberIssuedTwice", "NoNumberSkipped", "StoredUnderAcknowledgedNumber", "NothingStoredTwiceOrUnacknowledged", "CountersAtLastNumber"),
+                "C02": ("CopiesArriveInIncreasingOrderOnceEach", "EveryCopyIsAnAcknowledgedMessage"),
+                "C03": ("WritelessNeverAccepted",)}.get(prop, ())
+        out = os.path.join(ctx.specdir, "e2pub_vectors.ndjson")
+        ctx.go_test_must_run("./", "TestVerifE2Pub$", env={"VERIF_OUT": out, "VERIF_E2_RUNS": e2pub["thorough"] if thorough else e2pub["quick"],
+                                                            "VERIF_E2_MSGS": 8}, timeout=1500)
+        r5, efails, _ = vlib.run_vector_monitor(ctx, "Monitor_E2Pub", "e2pub_vectors.ndjson", timeout=900)
+        evec = vlib.read_ndjson(out)
+        ne = 0
+        for k, mons in efails:
+            for m in mons:
+                if m in mine:
+                    ne += 1
+                    v = evec[k - 1]
+                    ctx.fail(m, {"run": v["run"], "acks": v["acks"][:12], "last": v["last"]}, act="E2Pub")
+        npub = sum(len(v["acks"]) for v in evec)
+        vlib.log("E2 concurrent publishers: %d runs, %d publishes answered; %d failures of %s monitors" % (len(evec), npub, ne, prop))
+        ctx.cov["e2_concurrent_publishers"] = {"runs": len(evec), "publishes": npub}
     nontriv = len({json.dumps(r["act"], sort_keys=True) + "|" + json.dumps(recs[i - 1]["st"]["subs"], sort_keys=True)
                    for i, r in enumerate(recs) if r["i"] > 0 and r["reply"].get("code", 0) not in (0,)})
     ctx.cov.update({
